@@ -64,6 +64,20 @@ def rule_t1_t2(repo, col):
         if p.end == "continue":
             cd = dict((s_, t) for s_, t, _ in p.conds)
             ok = len(cd) == 1 and list(cd.items())[0] in [(fl, False) for fl in flags]
+            if not ok and len(cd) == 1:
+                # the same test as a single expression: all(c.check(<strategy>) for c in constraints) is false
+                (src, truth), = cd.items()
+                try:
+                    e = ast.parse(src, mode="eval").body
+                except SyntaxError:
+                    e = None
+                if truth is False and isinstance(e, ast.Call) and dotted(e.func) == "all" and len(e.args) == 1 and isinstance(e.args[0], (ast.GeneratorExp, ast.ListComp)) \
+                        and len(e.args[0].generators) == 1 and norm(e.args[0].generators[0].iter) == f.params[3] and not e.args[0].generators[0].ifs \
+                        and isinstance(e.args[0].elt, ast.Call) and isinstance(e.args[0].elt.func, ast.Attribute) and e.args[0].elt.func.attr == "check":
+                    ok = True
+                if truth is True and isinstance(e, ast.Call) and dotted(e.func) == "any" and len(e.args) == 1 and isinstance(e.args[0], (ast.GeneratorExp, ast.ListComp)) \
+                        and len(e.args[0].generators) == 1 and norm(e.args[0].generators[0].iter) == f.params[3] and isinstance(e.args[0].elt, ast.UnaryOp) and isinstance(e.args[0].elt.op, ast.Not):
+                    ok = True
             col.decide("T1", m, lp, ok, "a strategy is skipped only when a constraint check failed",
                        "search_exhaustive skips a strategy under the condition %s: only strategies violating a constraint may be skipped" % sorted(cd.items()),
                        construct="skip: %s" % sorted(cd.items()), function="search_exhaustive")
